@@ -1180,16 +1180,16 @@ theorem candRow_length {c : List (List Int)} {v t : List Int} (h : candRow c v =
 
 theorem candMat_lengths {c : List (List (List Int))} {v t : Mat} (h : candMat c v = .ok t) (n : Nat)
     (hv : ∀ r ∈ v, r.length ≤ n) : ∀ r ∈ t, r.length ≤ n := by
-  induction c generalizing v t with
+  induction v generalizing c t with
   | nil =>
-    cases v with
-    | nil => simp [candMat, pure, Except.pure] at h; subst h; intro r hr; simp at hr
-    | cons y ys => simp [candMat] at h
-  | cons a as ih =>
-    cases v with
-    | nil => simp [candMat, pure, Except.pure] at h; subst h; intro r hr; simp at hr
-    | cons y ys =>
-      simp only [candMat, bind, Except.bind] at h
+    cases c <;> (simp [candMat, pure, Except.pure] at h; subst h; intro r hr; simp at hr)
+  | cons y ys ih =>
+    -- both clauses for a non-empty matrix of values have the same shape (beyond the last row of candidates the row
+    -- of candidates is `[]`)
+    have key : ∀ (a : List (List Int)) (as : List (List (List Int))),
+        (do let p ← candRow a y; let t ← candMat as ys; pure (p :: t) : Res Mat) = .ok t → ∀ r ∈ t, r.length ≤ n := by
+      intro a as h
+      simp only [bind, Except.bind] at h
       cases hp : candRow a y with
       | error e => simp [hp] at h
       | ok p =>
@@ -1201,6 +1201,9 @@ theorem candMat_lengths {c : List (List (List Int))} {v t : Mat} (h : candMat c 
           rcases List.mem_cons.mp hr with rfl | hr'
           · rw [candRow_length hp]; exact hv y (by simp)
           · exact ih ht (fun r hr => hv r (by simp [hr])) r hr'
+    cases c with
+    | nil => simp only [candMat] at h; exact key [] [] h
+    | cons a as => simp only [candMat] at h; exact key a as h
 
 theorem diffRow_short (r : List Int) (h : r.length ≤ 1) : diffRow r = [] := by
   cases r with
